@@ -807,6 +807,9 @@ class PayloadDELETE(Payload):
         spis = []
         offset = 4
         for i in range(0, num_spis):
+            # never read (or loop) beyond the data actually received
+            if spi_size == 0 or offset + spi_size > len(data):
+                break
             spis.append(data[offset:offset + spi_size])
             offset += spi_size
         return PayloadDELETE(protocol_id, spis, critical=critical)
